@@ -217,9 +217,12 @@ func (f *STFS) Initialize(rootProposal string, rootPerm os.FileMode) (root strin
 
 	existingRoot, err := f.metadata.Metadata.GetRootPath(context.Background())
 	if err == config.ErrNoRootDirectory {
-		mkdirRoot := func() (string, error) {
-			if err := f.readOps.GetBackend().CloseReader(); err != nil {
-				return "", err
+		mkdirRoot := func(closeReader bool) (string, error) {
+			// There is nothing to close if the reader could not be opened
+			if closeReader {
+				if err := f.readOps.GetBackend().CloseReader(); err != nil {
+					return "", err
+				}
 			}
 
 			if f.readOnly {
@@ -236,7 +239,7 @@ func (f *STFS) Initialize(rootProposal string, rootPerm os.FileMode) (root strin
 
 		reader, err := f.readOps.GetBackend().GetReader()
 		if err != nil {
-			return mkdirRoot()
+			return mkdirRoot(false)
 		}
 
 		if err := recovery.Index(
@@ -261,7 +264,7 @@ func (f *STFS) Initialize(rootProposal string, rootPerm os.FileMode) (root strin
 
 			f.onHeader,
 		); err != nil {
-			return mkdirRoot()
+			return mkdirRoot(true)
 		}
 
 		if err := f.readOps.GetBackend().CloseReader(); err != nil {
